@@ -7,8 +7,11 @@ Exit codes: 0 every required obligation discharged (known findings only reported
             3 inconclusive (a required obligation neither discharged nor refuted).
 """
 import sys
-sys.path.insert(0, '/repo/src')
 import os
+# the code analysed is /repo's current working tree (PV_REPO overrides it only for mutation rehearsals on scratch clones;
+# registered commands never set it)
+REPO = os.environ.get('PV_REPO', '/repo')
+sys.path.insert(0, REPO + '/src')
 import re
 import json
 import time
@@ -20,8 +23,8 @@ HERE = os.path.dirname(os.path.dirname(os.path.abspath(__file__)))
 sys.path.insert(0, HERE)
 
 import pyfvtool   # noqa: E402
-assert os.path.realpath(pyfvtool.__file__).startswith('/repo/src/'), \
-    'pyfvtool imported from %s, not from /repo/src' % pyfvtool.__file__
+assert os.path.realpath(pyfvtool.__file__).startswith(os.path.realpath(REPO) + '/src/'), \
+    'pyfvtool imported from %s, not from %s/src' % (pyfvtool.__file__, REPO)
 
 from pv import core, smt   # noqa: E402
 
@@ -46,8 +49,9 @@ def _safe(oid):
 
 
 def write_replay(prop, res, rec):
-    os.makedirs(os.path.join(HERE, 'replays'), exist_ok=True)
-    path = os.path.join(HERE, 'replays', '%s-%s.json' % (prop, _safe(rec['oid'])))
+    rdir = os.environ.get('PV_REPLAY_DIR', os.path.join(HERE, 'replays'))
+    os.makedirs(rdir, exist_ok=True)
+    path = os.path.join(rdir, '%s-%s.json' % (prop, _safe(rec['oid'])))
     base_oid = rec['oid'].split('#p')[0]
     json.dump({'property': prop, 'fn': res['fn'], 'params': res['params'], 'oid': base_oid,
                'scenario': res['name'], 'env': rec.get('env', {}), 'observed': rec.get('replay')},
@@ -265,8 +269,9 @@ def report(prop, tier, seed, mod, results, t0):
         cov['exhaustive'] = meta['exhaustive']
     ev = {'property_id': prop, 'tier': tier, 'seed': seed, 'level': level, 'coverage': cov,
           'assumptions': meta.get('assumptions', []), 'wall_s': round(wall, 2), 'violations': len(violations)}
-    os.makedirs(os.path.join(HERE, 'evidence'), exist_ok=True)
-    json.dump(ev, open(os.path.join(HERE, 'evidence', '%s.json' % prop), 'w'), indent=1)
+    evdir = os.environ.get('PV_EVIDENCE_DIR', os.path.join(HERE, 'evidence'))
+    os.makedirs(evdir, exist_ok=True)
+    json.dump(ev, open(os.path.join(evdir, '%s.json' % prop), 'w'), indent=1)
     print('%s %s: obligations=%d discharged=%d optional=%d/%d known-finding-obligations=%d violations=%d '
           'harness-errors=%d inconclusive=%d queries=%d solver=%.1fs wall=%.1fs exit=%d'
           % (prop, tier, n_ob, n_dis, n_opt_dis, n_opt, sum(len(v) for v in known_hits.values()),
